@@ -243,8 +243,8 @@ func c10Gen(t *rapid.T) c10Case {
 		ins := c02Gen(t)
 		return c10Case{Mode: "insdel", Ins: &ins}
 	}
-	L := rapid.IntRange(1, 14).Draw(t, "L")
-	nc := rapid.IntRange(0, 4).Draw(t, "ncuts")
+	L := drawLen(t, 1, 14, "L")
+	nc := drawCount(t, 0, 4, 12, "ncuts")
 	cuts := make([]int, nc)
 	for i := range cuts {
 		cuts[i] = rapid.IntRange(0, L).Draw(t, "cut")
@@ -253,14 +253,18 @@ func c10Gen(t *rapid.T) c10Case {
 	for _, k := range cuts {
 		hot = append(hot, hotAround(L, k, 0)...)
 	}
-	cfg := locCfg{L: L, Hot: hot, MaxDepth: 3, MaxParts: 4, Ambig: true, Sites: true}
-	return c10Case{Mode: "cutcat", L: L, Cuts: cuts, Feat: genFeats(t, cfg, rapid.IntRange(0, 4).Draw(t, "nfeat"), "f", true)}
+	cfg := locCfg{L: L, Hot: hot, MaxDepth: 3, MaxParts: scopeParts(4), Ambig: true, Sites: true}
+	return c10Case{Mode: "cutcat", L: L, Cuts: cuts, Feat: genFeats(t, cfg, drawCount(t, 0, 4, 9, "nfeat"), "f", true)}
 }
 
 func TestC10(t *testing.T) {
 	st := newStats("C10")
 	defer st.flush()
 	rapidPart(t, c10Prop, st, "rapid", pick(30000, 250000), c10Gen)
+	if t.Failed() {
+		return
+	}
+	rapidLargePart(t, c10Prop, st, pick(1500, 20000), c10Gen)
 	if t.Failed() {
 		return
 	}
